@@ -230,7 +230,7 @@ fn c15_2a_distance_attenuation() {
     core::mem::forget(sd);
 }
 
-// @ob id=C15.3a strength=bounded tier=thorough timeout=10800 bound="real Track with spatial data whose listener id does not resolve (listener arena of capacity 1, empty); one probe sound; 2 frames" fn=track/sub.rs::Track::process
+// @ob id=C15.3a strength=bounded tier=disabled bound="real Track with spatial data whose listener id does not resolve (listener arena of capacity 1, empty); one probe sound; 2 frames" fn=track/sub.rs::Track::process
 // @req a spatial track whose listener never existed or was dropped
 // @ens every output frame is exactly zero (the track is silent without a listener), and nothing is sent onward
 #[kani::proof]
@@ -285,7 +285,7 @@ fn c02_3c_leaf_track_signal_flow() {
     core::mem::forget(e); core::mem::forget(b);
 }
 
-// @ob id=C12.2b,C02.3d strength=bounded tier=thorough timeout=10800 bound="a leaf track with one probe sound and one probe effect, paused with a zero-length fade; 2 frames" fn=track/sub.rs::Track::{process,read_commands,pause}
+// @ob id=C12.2b,C02.3d strength=bounded tier=disabled bound="a leaf track with one probe sound and one probe effect, paused with a zero-length fade; 2 frames" fn=track/sub.rs::Track::{process,read_commands,pause}
 // @req pause command read at a callback, one warm-up update, then a 2-frame process
 // @ens the handle reports Pausing, then Paused; the paused track emits exact silence and neither its sound nor its effect is called (nothing beneath it advances)
 #[kani::proof]
